@@ -29,14 +29,14 @@ CLI_EVERY = 60           # one case in this many goes through an installed entry
 BATCH = 600              # look-ahead: CLI cases of a batch run in parallel with the in-process ones
 RULE = ("random forests of nested testcases (<= 12 nodes, depth <= 4; chains of depth <= 5) with every node drawn "
         "from guard {none, except Exception, except BaseException} x form {decorator, named decorator, with-block} "
-        "x ending {pass, RuntimeError, tbot.skip, KeyboardInterrupt}; one case in %d runs through /venv/bin/newbot or "
+        "x ending {pass, an Exception subclass (RuntimeError / assert / ValueError / user class), tbot.skip or raise SkipException, KeyboardInterrupt}; one case in %d runs through /venv/bin/newbot or "
         "/venv/bin/tbot as a subprocess, the others in-process; a case is non-trivial when some testcase ends by an "
         "exception or a skip (any flag other than plain success) or when a CLI run stops before the last testcase; "
         "distinct = distinct case lines" % CLI_EVERY)
 TRUSTED = ["CPython's try/except/with/contextlib.contextmanager semantics for the generated program (the marks "
            "I/Y/R are written by the program under test through tbot.log.EventIO with a private event type)",
            "generators/logparser.py and json for reading the CLI log (C17 covers them)"]
-ASSUMPTIONS = ["exceptions raised by testcases are RuntimeError, tbot.SkipException (via tbot.skip) or "
+ASSUMPTIONS = ["exceptions raised by testcases are Exception subclasses, tbot.SkipException or "
                "KeyboardInterrupt; SystemExit is outside the domain (newbot maps it to an exit code on purpose, the "
                "legacy main does not catch it)",
                "an end event 'says success' when success and not skipped (log_event.testcase_end documents that "
